@@ -58,8 +58,12 @@ Record case20 := {
   k_claim0 : claim;            (* the claim before setClaimCalldata *)
   k_err : N;                   (* observed error, code as above (99 = unclassified) *)
   k_claim1 : claim;            (* the claim after setClaimCalldata *)
+  (* the same claim through the REAL log appender (bridgesync.buildAppender, syncFullClaims): pre-Etrog event?, the ClaimEvent log's data as
+     32-byte words, and whether the appender ended with the same error class / appended the same Claim as the direct call *)
+  k_log : option (bool * list N * bool);
 }.
-Definition K b t c0 e c1 : case20 := {| k_bridge := b; k_trace := t; k_claim0 := c0; k_err := e; k_claim1 := c1 |}.
+Definition K b t c0 e c1 : case20 := {| k_bridge := b; k_trace := t; k_claim0 := c0; k_err := e; k_claim1 := c1; k_log := None |}.
+Definition KL b t c0 e c1 lg : case20 := {| k_bridge := b; k_trace := t; k_claim0 := c0; k_err := e; k_claim1 := c1; k_log := Some lg |}.
 
 Fixpoint listN_eqb (a b : list N) : bool :=
   match a, b with [], [] => true | x :: a', y :: b' => (x =? y) && listN_eqb a' b' | _, _ => false end.
@@ -107,7 +111,20 @@ Definition abi_agree (k : case20) : bool :=
   | None => true
   | Some root => forallb (fun d => negb (c_to d =? k_bridge k) || frame_agrees (c_inp d)) (all_calls xinput root)
   end.
-Definition corr (k : case20) : bool := corr_run k && abi_agree k.
+(* the ClaimEvent log the appender was given decodes (Model/Abi.v) to the event fields of claim0 — cl_rest = [BlockNum; BlockPos; TxHash;
+   OriginNetwork; OriginAddress; DestinationAddress; Amount; BlockTimestamp] — and the appender's result agrees with the direct call *)
+Definition log_agree (k : case20) : bool :=
+  match k_log k with
+  | None => true
+  | Some (pre, words, agree) =>
+      agree &&
+      match (if pre then decode_claim_event_pre else decode_claim_event) (flat_map (be_fast 32) words), cl_rest (k_claim0 k) with
+      | Some f, [_; _; _; onet; oaddr; daddr; amount; _] =>
+          (cf_gi f =? cl_gi (k_claim0 k)) && (cf_onet f =? onet) && (cf_oaddr f =? oaddr) && (cf_daddr f =? daddr) && (cf_amount f =? amount)
+      | _, _ => false
+      end
+  end.
+Definition corr (k : case20) : bool := corr_run k && abi_agree k && log_agree k.
 
 (* the property's quantifier: every call addressed to the bridge (anywhere in the tree) is a claim call *)
 Definition in_quantifier (bridge : N) (root : xcall) : bool :=
@@ -139,7 +156,11 @@ Definition expected (cl0 : claim) (d : xcall) : option claim :=
 Definition untouched_and_error (k : case20) : bool :=
   negb (k_err k =? 0) && claim_eqb (k_claim1 k) (k_claim0 k).
 
-Definition spec (k : case20) : bool :=
+(* the Claim the REAL log appender appends for the event (same trace) is the one judged below: same outcome, same fields *)
+Definition spec_via_log (k : case20) : bool :=
+  match k_log k with Some (_, _, agree) => agree | None => true end.
+
+Definition spec_direct (k : case20) : bool :=
   match k_trace k with
   | None => untouched_and_error k
   | Some root =>
@@ -152,6 +173,8 @@ Definition spec (k : case20) : bool :=
       end
     else true      (* outside the quantifier (malformed stream): recorded in evidence, not judged *)
   end.
+
+Definition spec (k : case20) : bool := spec_direct k && spec_via_log k.
 
 (* classification used for the evidence (computed by vm_compute per case): 0 outside quantifier, 1 no candidate,
    2 one candidate, 3 several candidates *)
